@@ -14,7 +14,7 @@ LEVEL = "exploration"
 BUDGET = {"quick": 1600, "thorough": 30000}
 RULE = (
     "Hypothesis grows typed expression trees (scalar | square matrix of size n in {1,2,3,4}) to depth "
-    "<=4 over add (n-ary), sub, s_mult (n-ary), m_mult (n-ary), kron (n-ary), expm, div, with leaves: "
+    "<=4 over add (n-ary), sub, s_mult (n-ary), m_mult (n-ary), kron (n-ary, every ordered factorisation into 2-4 factors incl. 1x1 factors), expm, div, with leaves: "
     "python int/float/complex, numpy arrays, jax arrays and context names whose callables read "
     "dims[k] of a generated dimension list (length 1-3); plus malformed heads (unknown text, ints, "
     "None). Oracle: an independent numpy evaluator (functools.reduce with +,-,*,@,np.kron,/ and "
@@ -93,6 +93,22 @@ def expr_strategy(n, dims, depth):
         st.builds(lambda a, b: dict(t="op", op="div", args=[a, b]), sub, st.one_of(scal_leaf, mat_leaf(n))),
         st.builds(lambda a: dict(t="op", op="expm", args=[a]), leaf),
     ]
+    # n-ary kron over every ordered factorisation of n into 2-4 factors from {1,2,3,4} (1x1 factors included)
+    def factorisations(m, k):
+        if k == 1:
+            return [(m,)] if m in (1, 2, 3, 4) else []
+        out = []
+        for f in (1, 2, 3, 4):
+            if m % f == 0:
+                out += [(f,) + rest for rest in factorisations(m // f, k - 1)]
+        return out
+    nary = [fz for k in (2, 3, 4) for fz in factorisations(n, k) if sum(1 for f in fz if f > 1) <= 2]
+    if nary:
+        def mk_kron(fz):
+            return st.tuples(*[st.deferred(lambda f=f: expr_strategy(f, dims, 0 if len(fz) > 2 else depth - 1)) for f in fz]).map(
+                lambda parts: dict(t="op", op="kron", args=list(parts)))
+        opts.append(st.sampled_from(nary).flatmap(mk_kron))
+        opts.append(st.sampled_from(nary).flatmap(mk_kron))
     # kron: factor n into sizes
     facs = [(p, n // p) for p in range(1, n + 1) if n % p == 0 and 1 < p < n]
     for p, q in facs:
